@@ -7,6 +7,7 @@ import (
 	"net"
 	"os"
 	"os/signal"
+	"sort"
 	"strings"
 	"sync"
 	"sync/atomic"
@@ -35,10 +36,12 @@ import (
 // is known (so that a later call finds them in a later phase) or never (only Close ends them). A last Close and a
 // last Shutdown are always appended (the counter must return to zero). EVERY call is judged:
 //
-//	nil    => at the moment of the return every socket the proxy has accepted has been closed by the proxy
-//	          (observed on the proxy's side of the socket: the listener handed to Serve wraps every connection
-//	          and records its Close; the handler closes the socket BEFORE it decrements the counter, so this is
-//	          exact) and the clients see the closure within 5 s;
+//	nil    => at the moment of the return every socket the proxy has accepted has been closed by the proxy:
+//	          its Close of the socket has RETURNED, not merely begun (observed on the proxy's side of the socket:
+//	          the listener handed to Serve wraps every connection, scripts how long its Close takes — at once,
+//	          50-400 ms, 650-900 ms; on a TLS listener a close_notify nobody reads — and records when the call
+//	          begins and when it returns; the handler's conn.Close() returns BEFORE it decrements the counter, so
+//	          this is exact) and the clients see the closure within 5 s;
 //	error  => it is the error of that call's own context (== ctx.Err(): DeadlineExceeded for a deadline, Canceled
 //	          for a cancellation) and the call returned no earlier than that context was done;
 //
@@ -99,23 +102,80 @@ type callObs struct {
 	DoneAt  time.Duration `json:"done_at,omitempty"`  // shutdown, error: the earliest instant at which its context can have been done
 	OpenAt  int           `json:"open_at_ret"`        // sockets accepted by the proxy and not closed by it at the return
 	OpenIDs []int         `json:"open_ids,omitempty"` // … which (order of acceptance)
+	// the sockets on which the proxy's Close had BEGUN and not RETURNED at the return (a Close that takes time)
+	BusyAt   int   `json:"closing_at_ret,omitempty"`
+	BusyIDs  []int `json:"closing_ids,omitempty"`
+	AlertIDs []int `json:"alert_ids,omitempty"` // among the open ones: crypto/tls has handed their close_notify to the socket and waits for it
 }
 
-// connTracker records, on the proxy's side, which accepted sockets the proxy has closed.
+// connTracker records, on the proxy's side, which accepted sockets the proxy has closed — and how far that close
+// has got: a connection handed out by trackListener is OPEN until the proxy calls Close on it, BUSY while that call
+// is under way (the scripted latency ConnScript.CloseMs: a wrapped connection whose Close takes time) and gone once
+// the call has RETURNED. On a TLS listener the tracked connection sits below crypto/tls: tls.Conn.Close first hands
+// it the close_notify record with a 5 s write deadline and closes it afterwards; ConnScript.StallMs holds that record
+// back the way a send buffer does whose peer does not read (until the deadline or the scripted time, whichever comes
+// first), and the connection is marked ALERT from then on (it stays open until tls.Conn gets to the Close).
 type connTracker struct {
-	mu   sync.Mutex
-	open map[int]struct{}
-	n    int
+	mu      sync.Mutex
+	open    map[int]struct{}
+	busy    map[int]struct{}
+	alert   map[int]struct{}
+	n       int
+	tls     bool           // the tracked connections sit below crypto/tls
+	byAddr  map[string]int // address of the client's end -> index of its script
+	scripts []ConnScript
 }
 
+func newConnTracker(scripts []ConnScript) *connTracker {
+	return &connTracker{open: map[int]struct{}{}, busy: map[int]struct{}{}, alert: map[int]struct{}{},
+		byAddr: map[string]int{}, scripts: scripts}
+}
+
+// bind: the client of script k has dialled from addr.
+func (t *connTracker) bind(addr string, k int) {
+	t.mu.Lock()
+	t.byAddr[addr] = k
+	t.mu.Unlock()
+}
+
+// script: what is scripted for the proxy's side of the connection whose client end is remote.
+func (t *connTracker) script(remote string) (closeLat, stall time.Duration) {
+	t.mu.Lock()
+	defer t.mu.Unlock()
+	k, ok := t.byAddr[remote]
+	if !ok || k >= len(t.scripts) {
+		return 0, 0
+	}
+	return time.Duration(t.scripts[k].CloseMs) * time.Millisecond, time.Duration(t.scripts[k].StallMs) * time.Millisecond
+}
+
+func keysOf(m map[int]struct{}) []int {
+	ids := make([]int, 0, len(m))
+	for id := range m {
+		ids = append(ids, id)
+	}
+	sort.Ints(ids)
+	return ids
+}
+
+// snapshot: the sockets on which the proxy has not called Close (order of acceptance).
 func (t *connTracker) snapshot() []int {
 	t.mu.Lock()
 	defer t.mu.Unlock()
-	ids := make([]int, 0, len(t.open))
-	for id := range t.open {
-		ids = append(ids, id)
+	return keysOf(t.open)
+}
+
+// state: open = Close not called; busy = Close called and not returned; alert = among the open ones, those whose
+// close_notify has been handed to the socket (crypto/tls is inside its Close, or has half-closed a tunnel).
+func (t *connTracker) state() (open, busy, alert []int) {
+	t.mu.Lock()
+	defer t.mu.Unlock()
+	for _, id := range keysOf(t.open) {
+		if _, ok := t.alert[id]; ok {
+			alert = append(alert, id)
+		}
 	}
-	return ids
+	return keysOf(t.open), keysOf(t.busy), alert
 }
 
 type trackListener struct {
@@ -133,23 +193,106 @@ func (l *trackListener) Accept() (net.Conn, error) {
 	l.t.n++
 	l.t.open[id] = struct{}{}
 	l.t.mu.Unlock()
-	return &trackConn{Conn: c, t: l.t, id: id}, nil
+	return &trackConn{Conn: c, t: l.t, id: id, remote: c.RemoteAddr().String(), closing: make(chan struct{})}, nil
 }
 
 type trackConn struct {
 	net.Conn
-	t    *connTracker
-	id   int
-	once sync.Once
+	t       *connTracker
+	id      int
+	remote  string
+	once    sync.Once
+	err     error
+	closing chan struct{} // closed when Close begins
+	wdl     atomic.Int64  // the write deadline in force (UnixNano; 0 = none)
 }
 
+// Close: the first call does the work — after the scripted latency, during which the socket is still open; every
+// other call waits for it (when a Close has returned, the socket is closed) and returns what the closed socket
+// answers to another Close.
 func (c *trackConn) Close() error {
+	first := false
 	c.once.Do(func() {
+		first = true
+		lat, _ := c.t.script(c.remote)
 		c.t.mu.Lock()
 		delete(c.t.open, c.id)
+		c.t.busy[c.id] = struct{}{}
+		c.t.mu.Unlock()
+		close(c.closing)
+		if lat > 0 {
+			time.Sleep(lat)
+		}
+		c.err = c.Conn.Close()
+		c.t.mu.Lock()
+		delete(c.t.busy, c.id)
 		c.t.mu.Unlock()
 	})
+	if first {
+		return c.err
+	}
 	return c.Conn.Close()
+}
+
+func (c *trackConn) SetDeadline(t time.Time) error {
+	c.noteWriteDeadline(t)
+	return c.Conn.SetDeadline(t)
+}
+
+func (c *trackConn) SetWriteDeadline(t time.Time) error {
+	c.noteWriteDeadline(t)
+	return c.Conn.SetWriteDeadline(t)
+}
+
+func (c *trackConn) noteWriteDeadline(t time.Time) {
+	if t.IsZero() {
+		c.wdl.Store(0)
+	} else {
+		c.wdl.Store(t.UnixNano())
+	}
+}
+
+// isAlertRecord: b is one TLS record that carries an alert — content type 21 up to TLS 1.2; in TLS 1.3 the alert
+// travels as application data (type 23) of 2 + 1 bytes under a 16-byte tag: 24 bytes in all, less than any record
+// the cases' traffic produces (the shortest is a tunnel probe of 7 bytes). crypto/tls hands each record of an
+// established connection to the socket in a Write of its own.
+func isAlertRecord(b []byte) bool {
+	if len(b) < 5 {
+		return false
+	}
+	return b[0] == 21 || (b[0] == 23 && len(b) == 24)
+}
+
+// Write: a close_notify for a peer that has stopped reading (StallMs) waits like a write into a full send buffer:
+// until the peer reads again (the scripted time has passed: the record goes out), until the write deadline (a
+// timeout error, nothing written) or until the socket is closed under it.
+func (c *trackConn) Write(b []byte) (int, error) {
+	if c.t.tls && isAlertRecord(b) {
+		c.t.mu.Lock()
+		c.t.alert[c.id] = struct{}{}
+		c.t.mu.Unlock()
+		if _, stall := c.t.script(c.remote); stall > 0 {
+			wait, timedOut := stall, false
+			if dl := c.wdl.Load(); dl != 0 {
+				if left := time.Until(time.Unix(0, dl)); left < wait {
+					wait, timedOut = left, true
+				}
+			}
+			if wait > 0 {
+				tm := time.NewTimer(wait)
+				select {
+				case <-tm.C:
+				case <-c.closing:
+					tm.Stop()
+					timedOut = false
+				}
+			}
+			if timedOut {
+				return 0, os.ErrDeadlineExceeded
+			}
+		}
+	}
+	return c.Conn.Write(b)
 }
 
 // CloseWrite: the tunnel copier half-closes through this interface.
@@ -280,6 +423,133 @@ func genCtl(r *core.Rand, i int) *Case {
 		c.Conns = append(c.Conns, s)
 	}
 	c.Conns = append(c.Conns, ConnScript{Phase: "late"})
+	// how long the proxy's Close of each socket takes (drawn last: everything above is what it was)
+	scriptCloses(r, c, []string{"none", "long", "short", "mixed"}[i%4], i%8 == 5)
+	return c
+}
+
+// scriptCloses scripts the proxy's end of the sockets of a case whose listener wraps what it accepts: CloseMs by mode
+// ("none": every Close returns at once; "short": 50-400 ms on some; "long": 650-900 ms on every connection that is
+// not a sentinel — longer than the 500 ms (+10 %) to which Shutdown's polling interval grows, so that a poll falls into
+// every such Close; "mixed"), and — stall, TLS listeners only — a peer that is not reading when its close_notify is
+// due on some connections (never both on one connection: a client waits 3 s for the close that follows a response with
+// Connection: close).
+func scriptCloses(r *core.Rand, c *Case, mode string, stall bool) {
+	some := false
+	for k := range c.Conns {
+		s := &c.Conns[k]
+		if s.Sentinel || s.Phase == "late" {
+			continue
+		}
+		if stall && c.TLS && (r.Chance(60) || !some) {
+			s.StallMs = r.Range(650, 1200)
+			some = true
+			continue
+		}
+		switch mode {
+		case "short":
+			if r.Chance(60) {
+				s.CloseMs = r.Range(50, 400)
+			}
+		case "long":
+			s.CloseMs = r.Range(650, 900)
+		case "mixed":
+			switch r.Intn(3) {
+			case 1:
+				s.CloseMs = r.Range(50, 400)
+			case 2:
+				s.CloseMs = r.Range(650, 900)
+			}
+		}
+	}
+}
+
+// closeScripted: some connection's proxy-side Close is scripted to take time.
+func (c *Case) closeScripted() bool {
+	for _, s := range c.Conns {
+		if s.CloseMs > 0 || s.StallMs > 0 {
+			return true
+		}
+	}
+	return false
+}
+
+// closeLabel: the cell of the close-latency dimension a case is in.
+func (c *Case) closeLabel() string {
+	short, long, stall := 0, 0, 0
+	for _, s := range c.Conns {
+		switch {
+		case s.StallMs > 0:
+			stall++
+		case s.CloseMs >= 500:
+			long++
+		case s.CloseMs > 0:
+			short++
+		}
+	}
+	l := "close-latency="
+	switch {
+	case short == 0 && long == 0:
+		l += "none"
+	case long == 0:
+		l += "short"
+	case short == 0:
+		l += "long"
+	default:
+		l += "mixed"
+	}
+	if stall > 0 {
+		l += "/close-notify-stalled"
+	}
+	if c.TLS {
+		return l + "/tls"
+	}
+	return l + "/plain"
+}
+
+// genCtlClose: the j-th case of the cross {Close returns at once, 50-400 ms, 650-900 ms} x {plain, TLS, TLS with
+// peers that do not take their close_notify} under histories that END IN A SUCCESS for certain: every connection
+// drains by itself once closing is known, and a Shutdown without deadline (alone, after one that gave up, or
+// overlapping one with a long deadline) waits for them. Its nil is judged at the instant of the return: the proxy's
+// Close of every socket it served has completed.
+func genCtlClose(r *core.Rand, j int) *Case {
+	c := &Case{Kind: "b", Family: "ctl", Op: "shutdown", ListenerFirst: true, Trigger: "ready", TimeoutMs: 4000,
+		DelayUs: core.Pick(r, []int{0, 1000, 20000}), TLS: j%3 != 0}
+	for k := 0; k < 2; k++ {
+		c.Conns = append(c.Conns, ConnScript{Phase: "idle", Sentinel: true, PreExchange: true})
+	}
+	switch (j / 9) % 3 {
+	case 0:
+		c.Calls = []Call{{Op: "shutdown", Start: "ret"}}
+	case 1:
+		c.Calls = []Call{{Op: "shutdown", CtxMs: r.Range(60, 150), Start: "ret"}, {Op: "shutdown", Start: "ret", GapMs: core.Pick(r, []int{0, 5, 40})}}
+	default:
+		c.Calls = []Call{{Op: "shutdown", CtxMs: r.Range(2500, 3500), Start: "ret"}, {Op: "shutdown", Start: "par", GapMs: core.Pick(r, []int{0, 1, 30})}}
+	}
+	phases := []string{"origin", "idle", "tunnel", "partial"}
+	nc := r.Range(2, 4)
+	for k := 0; k < nc; k++ {
+		s := ConnScript{Phase: phases[(j+k)%len(phases)]}
+		switch s.Phase {
+		case "origin":
+			s.DelayMs = r.Range(150, 500)
+			s.PreExchange = r.Chance(30)
+			s.NoBody = r.Chance(20)
+			s.After = core.Pick(r, []string{"send", "close"})
+		case "idle":
+			s.PreExchange = r.Chance(60)
+			s.After = core.Pick(r, []string{"close", "send", "connect"})
+		case "tunnel":
+			s.HoldMs = r.Range(100, 400)
+			s.After = core.Pick(r, []string{"close", "oend"})
+		case "partial":
+			s.Gate = true
+			s.After = core.Pick(r, []string{"close", "send"})
+		}
+		c.Conns = append(c.Conns, s)
+	}
+	c.Conns = append(c.Conns, ConnScript{Phase: "late"})
+	scriptCloses(r, c, []string{"long", "short", "none"}[(j/3)%3], j%3 == 2)
 	return c
 }
 
@@ -338,6 +608,11 @@ func genRunEnd(r *core.Rand, i int) *Case {
 	}
 	c.Conns = append(c.Conns, ConnScript{Phase: "idle", After: "send", PreExchange: r.Chance(50)})
 	c.Conns = append(c.Conns, ConnScript{Phase: "late"})
+	if end == "drain" && !c.TLS {
+		// Run returns because its Shutdown reported success: the proxy's Close of the sockets takes time (the wrapper
+		// sits on top of the proxy's own listener, which a TLS listener does not allow: martian looks for *tls.Conn)
+		scriptCloses(r, c, []string{"long", "short", "mixed"}[(i/4)%3], false)
+	}
 	return c
 }
 
@@ -430,6 +705,10 @@ func genRunSig(r *core.Rand, i int) *Case {
 	}
 	c.Conns = append(c.Conns, ConnScript{Phase: "idle", After: "send", PreExchange: r.Chance(50)})
 	c.Conns = append(c.Conns, ConnScript{Phase: "late"})
+	if c.End == "drain" && !c.TLS {
+		// the drain ends by itself whatever is delivered: Run returns on its Shutdown's success (see genRunEnd)
+		scriptCloses(r, c, []string{"long", "mixed", "long", "short"}[i%4], false)
+	}
 	return c
 }
 
@@ -497,9 +776,21 @@ func (cr *caseRun) runCalls(out *outcome) {
 				o.CallAt = e.T
 				close(issued[i])
 				cr.mp.Close()
-				o.OpenIDs = cr.tracker.snapshot()
+				o.OpenIDs, o.BusyIDs, o.AlertIDs = cr.tracker.state()
 				r := cr.log.Add("CR", o.N)
-				o.RetAt, o.Ret, o.OpenAt = r.T, true, len(o.OpenIDs)
+				o.RetAt, o.Ret, o.OpenAt, o.BusyAt = r.T, true, len(o.OpenIDs), len(o.BusyIDs)
+				if c.TLS && len(o.OpenIDs) > len(o.AlertIDs) {
+					// a handler that has entered tls.Conn.Close and not yet handed the close_notify to the socket (a few
+					// microseconds; crypto/tls lets the Close of Proxy.Close return at once from then on) shows within
+					// 50 ms; a socket nobody is closing stays open
+					time.Sleep(50 * time.Millisecond)
+					open2, _, _ := cr.tracker.state()
+					for _, id := range o.OpenIDs {
+						if !hasInt(open2, id) && !hasInt(o.AlertIDs, id) {
+							o.AlertIDs = append(o.AlertIDs, id)
+						}
+					}
+				}
 				close(returned[i])
 				cr.setKnown()
 				return
@@ -527,9 +818,11 @@ func (cr *caseRun) runCalls(out *outcome) {
 			}
 			close(issued[i])
 			err := cr.mp.Shutdown(ctx)
-			open := cr.tracker.snapshot()
+			// the instant of the return: which sockets has the proxy not closed, on which is its Close still under way
+			open, busy, alert := cr.tracker.state()
 			r := cr.log.AddRet(o.N, strings.SplitN(resOf(err), ":", 2)[0])
 			o.RetAt, o.Ret, o.Result, o.OpenAt, o.OpenIDs = r.T, true, resOf(err), len(open), open
+			o.BusyAt, o.BusyIDs, o.AlertIDs = len(busy), busy, alert
 			if err != nil {
 				o.OwnErr = err == ctx.Err() //nolint:errorlint // identity: the very error of this call's context
 				switch {
@@ -576,9 +869,14 @@ func evaluateCalls(ctx *core.Ctx, c *Case, out *outcome, doc caseDoc, h string) 
 			continue // reported as a note
 		}
 		if o.Op == "close" {
-			if o.OpenAt > 0 {
+			// (a socket whose handler is inside tls.Conn.Close, waiting for its close_notify to be taken, is being
+			// closed by the proxy: crypto/tls lets the Close of Proxy.Close return at once there — counted, not judged)
+			if n := o.OpenAt - len(o.AlertIDs); n > 0 {
 				ctx.SpecFail("after Close every accepted socket is closed", "", doc, h,
-					fmt.Sprintf("call %d (Close %d) returned; %d socket(s) the proxy had accepted and registered were not closed by it at that moment", i, o.N, o.OpenAt))
+					fmt.Sprintf("call %d (Close %d) returned; %d socket(s) the proxy had accepted and registered were not closed by it at that moment (order of acceptance: %v; in a TLS close: %v)", i, o.N, n, o.OpenIDs, o.AlertIDs))
+			}
+			if len(o.AlertIDs) > 0 {
+				ctx.Count("ctl/close-returned-while-a-handler-waits-in-tls-close-notify")
 			}
 			continue
 		}
@@ -589,11 +887,14 @@ func evaluateCalls(ctx *core.Ctx, c *Case, out *outcome, doc caseDoc, h string) 
 		}
 		switch {
 		case o.Result == "n":
-			if o.OpenAt > 0 {
+			// judged at the instant of the return: the proxy's Close of every accepted socket has COMPLETED — not
+			// merely begun (a Close that takes time: scripted latency, a close_notify nobody reads)
+			if o.OpenAt > 0 || o.BusyAt > 0 {
 				ctx.SpecFail("Shutdown reports success only once every connection that was being served has been closed", "", doc, h,
-					fmt.Sprintf("call %d (%s, Shutdown %d) returned nil %v after it was called; %d accepted socket(s) had not been closed by the proxy at that moment (order of acceptance: %v)",
-						i, calls[i].label(), o.N, o.RetAt-o.CallAt, o.OpenAt, o.OpenIDs))
+					fmt.Sprintf("call %d (%s, Shutdown %d) returned nil %v after it was called; at that moment the proxy had not called Close on %d accepted socket(s) (order of acceptance: %v; waiting in a TLS close_notify: %v) and its Close of %d more had begun and not returned (%v)",
+						i, calls[i].label(), o.N, o.RetAt-o.CallAt, o.OpenAt, o.OpenIDs, o.AlertIDs, o.BusyAt, o.BusyIDs))
 			}
+			ctx.Count("ctl/nil/" + c.closeLabel())
 			// the clients' view, with a generous bound
 			var late []int
 			for k := range c.Conns {
